@@ -1,4 +1,6 @@
-package eng
+// Package engalloc is E-alloc in its sequential mode. Like engarith it links nothing of coredhcp but the
+// pure-Go allocator packages, so that the driver can also build it into a 32-bit worker.
+package engalloc
 
 import (
 	"encoding/json"
@@ -7,6 +9,7 @@ import (
 	"math/big"
 	"math/rand"
 	"net"
+	"strconv"
 	"strings"
 
 	"github.com/coredhcp/coredhcp/plugins/allocators"
@@ -34,7 +37,8 @@ type allocCase struct {
 
 type allocEngine struct{}
 
-func init() { register("alloc", allocEngine{}) }
+// Engine is the engine value registered by the workers.
+var Engine fw.Engine = allocEngine{}
 
 var v4Sizes = []uint32{1, 2, 3, 63, 64, 65, 127, 128, 129, 256, 4097}
 var v6Shapes = [][2]int{{56, 64}, {60, 68}, {64, 64}, {63, 65}, {62, 66}, {0, 8}, {1, 9}, {120, 127}, {124, 128}, {48, 60}, {58, 64}, {64, 70}, {112, 128}}
@@ -153,6 +157,11 @@ func (r *allocRun) desc() string {
 
 func (allocEngine) Run(ctx *fw.Ctx, cs any) {
 	c := cs.(*allocCase)
+	if strconv.IntSize == 32 && (c.Probe == "v4-full-range" || c.Probe == "v6-huge-pool") {
+		// 2^32 and 2^33 blocks do not fit the word size of this build: not a pool the statement covers here
+		ctx.Count("alloc.probe_skipped_on_32bit", 1)
+		return
+	}
 	if c.Probe == "v4-full-range" {
 		probeFullV4(ctx, c)
 		return
@@ -327,7 +336,17 @@ func (r *allocRun) doAlloc() {
 				class += "/16byte"
 			}
 			if len(hint.IP) == 4 || hint.IP.To4() != nil {
-				hint.Mask = net.CIDRMask(32, 32)
+				// the three ways a caller writes "this one address": no mask (what the range plugin passes at
+				// start-up), /32, and /128 (a 16-byte address with a full mask)
+				switch r.rng.Intn(3) {
+				case 0:
+					hint.Mask = net.CIDRMask(32, 32)
+				case 1:
+					hint.Mask = net.CIDRMask(128, 128)
+					class += "/mask128"
+				default:
+					class += "/nomask"
+				}
 			} else {
 				hint.Mask = net.CIDRMask(128, 128)
 			}
